@@ -533,7 +533,7 @@ def run_job(job):
 
 def main(chk):
     quick = chk.tier == "quick"
-    n = 720 if quick else 4800
+    n = 2400 if quick else 9600
     tools = job_tools(chk)
     jobs = [{"id": "j%d" % i, "seed": job_seed(chk.seed, "C20", i), "tool": tools[i % len(tools)], "queries": 5 if quick else 8} for i in range(n)]
     if not quick:
